@@ -169,4 +169,42 @@ theorem effSplit_lt (split : Int) (tmpl : List Char) (hs : split < endSections) 
 theorem effSplit_cases (split : Int) (tmpl : List Char) : effSplit split tmpl = split ∨ effSplit split tmpl = -10 := by
   unfold effSplit; split <;> simp
 
+/-! ### navigation entries registered by the parser -/
+
+theorem setLinkType_inTree (links : List NavEntry) (e : NavEntry) (h : ∀ x ∈ links, x.inTree = true)
+    (he : e.inTree = true) : ∀ x ∈ setLinkType links e, x.inTree = true := by
+  intro x hx
+  unfold setLinkType at hx
+  split at hx
+  · exact h x hx
+  · simp only [List.mem_cons, List.mem_filter] at hx
+    rcases hx with rfl | hx
+    · exact he
+    · exact h x hx.1
+
+theorem parseNav_inTree_go : ∀ (hist : List Inst) (links : List NavEntry), (∀ x ∈ links, x.inTree = true) →
+    ∀ x ∈ hist.foldl invokeInst links, x.inTree = true
+  | [], links, h => by simpa using h
+  | i :: rest, links, h => by
+    simp only [List.foldl_cons]
+    apply parseNav_inTree_go rest
+    cases i with
+    | cmd k p => exact setLinkType_inTree links _ h rfl
+    | envBegin k p => exact setLinkType_inTree links _ h rfl
+    | envEnd k p => exact h
+
+/-- at most one entry per key (a dictionary) -/
+theorem setLinkType_keys (links : List NavEntry) (e : NavEntry) (h : (links.map (·.key)).Nodup) :
+    ((setLinkType links e).map (·.key)).Nodup := by
+  unfold setLinkType
+  split
+  · exact h
+  · simp only [List.map_cons, List.nodup_cons]
+    refine ⟨?_, ?_⟩
+    · intro hm
+      obtain ⟨x, hx, hk⟩ := List.mem_map.mp hm
+      simp only [List.mem_filter] at hx
+      simp [hk] at hx
+    · exact (List.Sublist.map _ List.filter_sublist).nodup h
+
 end PlasVerif.Proofs.UrlsFoot
